@@ -15,12 +15,6 @@ open Sonic.Model.Number
 /-- value of a finite non-negative double in units of `2^-1074` -/
 def u (b : Nat) : Nat := (decodeF64 b).1 * 2 ^ ((decodeF64 b).2 + 1074).toNat
 
-/-- `2^s = 2^(s+1074) / 2^1074` for `s ≥ -1074` -/
-theorem pL_pR_units (s : Int) (hs : -1074 ≤ s) : pL s * 2 ^ 1074 = pR s * 2 ^ (s + 1074).toNat := by
-  unfold pL pR
-  rw [← Nat.pow_add, ← Nat.pow_add]
-  congr 1; omega
-
 theorem decode_exp_ge (b : Nat) : -1074 ≤ (decodeF64 b).2 := by
   unfold decodeF64
   simp only
@@ -100,6 +94,7 @@ theorem u_exact (num den : Nat) (hn : 0 < num) (hd : 0 < den) (b : Nat) (h : rou
     rw [← e2]; omega
   -- 2^(1-g) · 2^t = 2^1075
   have hid : pL (1 - g) * 2 ^ (g + 1074).toNat = pR (1 - g) * (2 ^ 1074 * 2) := by
+    set_option exponentiation.threshold 1100 in
     rw [← Nat.pow_succ]
     unfold pL pR
     rw [← Nat.pow_add, ← Nat.pow_add]; congr 1; omega
@@ -211,10 +206,12 @@ theorem fmul_eq (a b : Nat) (ha : 0 < u a) (hb : 0 < u b) :
   · exact Nat.mul_pos (Nat.mul_pos hsa hsb) (pL_pos _)
   · exact Nat.mul_pos (by omega) (pR_pos _)
   · exact Nat.mul_pos (Nat.mul_pos hsa (Nat.pow_pos (by omega))) (Nat.mul_pos hsb (Nat.pow_pos (by omega)))
-  · exact Nat.mul_pos (Nat.pow_pos (by omega)) (Nat.pow_pos (by omega))
+  · set_option exponentiation.threshold 1100 in
+    exact Nat.mul_pos (Nat.pow_pos (by omega)) (Nat.pow_pos (by omega))
   · unfold pL pR
     have key : 2 ^ (ea + eb).toNat * (2 ^ 1074 * 2 ^ 1074)
         = 2 ^ (ea + 1074).toNat * 2 ^ (eb + 1074).toNat * 2 ^ (-(ea + eb)).toNat := by
+      set_option exponentiation.threshold 2200 in
       rw [← Nat.pow_add, ← Nat.pow_add, ← Nat.pow_add, ← Nat.pow_add]
       congr 1; omega
     calc sa * sb * 2 ^ (ea + eb).toNat * (2 ^ 1074 * 2 ^ 1074)
@@ -311,6 +308,7 @@ theorem u_ge_of_exp (n d : Nat) (hn : 0 < n) (hd : 0 < d) (b : Nat) (h : roundRa
   · obtain ⟨_, hq, _⟩ := h
     have ht : (ulpOf (floorLog2Rat n d) + 1074).toNat = 1075 + ((ulpOf (floorLog2Rat n d) + 1074).toNat - 1075) := by
       omega
+    set_option exponentiation.threshold 1100 in
     rw [ht, Nat.pow_add, show (2 : Nat) ^ 1075 = 2 ^ 1074 * 2 from Nat.pow_succ 2 1074]
     have hR : 1 ≤ (2 : Nat) ^ ((ulpOf (floorLog2Rat n d) + 1074).toNat - 1075) := Nat.pow_pos (by omega)
     generalize (2 : Nat) ^ ((ulpOf (floorLog2Rat n d) + 1074).toNat - 1075) = R at *
